@@ -7,6 +7,7 @@ import (
 	"path/filepath"
 	"strings"
 	"sync"
+	"sync/atomic"
 	"time"
 
 	"github.com/markusressel/fan2go/internal"
@@ -382,6 +383,12 @@ func init() {
 		if ctx.Batch == 3%ctx.Of && !ctx.Abort {
 			c19AfterReportedError(ctx, dir)
 		}
+		if ctx.Batch == 4%ctx.Of && !ctx.Abort {
+			c19ExecutableBeingReplaced(ctx, dir)
+		}
+		if ctx.Batch == 5%ctx.Of && !ctx.Abort {
+			c19LongRunOfFailures(ctx, dir)
+		}
 	})
 }
 
@@ -643,5 +650,149 @@ func c19AfterReportedError(ctx *Ctx, dir string) {
 			}
 			ctx.Nontrivial("after-reported-error|" + how + "|" + variant)
 		}
+	}
+}
+
+// c19ExecutableBeingReplaced: the configured executable is being replaced while fan2go calls it (package upgrade,
+// a script regenerated by another service): by rename it alternates between the working script, a symlink that points
+// to itself, a dangling symlink, a directory and a symlink to the working script. Every call returns - with the
+// output of a run or an error - and none panics, at whatever point between fan2go's own file-system calls the swap lands.
+func c19ExecutableBeingReplaced(ctx *Ctx, dir string) {
+	sdir := filepath.Join(dir, "replaced")
+	_ = os.MkdirAll(sdir, 0755)
+	good := filepath.Join(sdir, "good.sh")
+	_ = os.WriteFile(good, []byte("#!/bin/sh\necho 42\n"), 0755)
+	for _, via := range []string{"SafeCmdExecution", "CmdSensor", "CmdFan.GetPwm"} {
+		ctx.LogCase(map[string]interface{}{"class": "executable-being-replaced:process-died:" + via})
+		p := filepath.Join(sdir, "tool-"+strings.ReplaceAll(via, ".", "-")+".sh")
+		_ = os.WriteFile(p, []byte("#!/bin/sh\necho 42\n"), 0755)
+		var stop atomic.Bool
+		var swaps atomic.Int64
+		var wg sync.WaitGroup
+		wg.Add(1)
+		go func() {
+			defer wg.Done()
+			tmp := p + ".new"
+			for i := 0; !stop.Load(); i++ {
+				_ = os.RemoveAll(tmp)
+				// (every kind of entry directly follows the working script at some point of the cycle)
+				switch []string{"script", "loop", "script", "dangling", "script", "dir", "link", "loop"}[i%8] {
+				case "loop":
+					_ = os.Symlink(filepath.Base(p), tmp) // points to itself once renamed
+				case "script":
+					_ = os.WriteFile(tmp, []byte("#!/bin/sh\necho 42\n"), 0755)
+				case "dangling":
+					_ = os.Symlink(filepath.Join(sdir, "nowhere"), tmp)
+				case "link":
+					_ = os.Symlink(good, tmp)
+				case "dir":
+					_ = os.Mkdir(tmp, 0755)
+				}
+				if fi, err := os.Lstat(p); err == nil && fi.IsDir() {
+					_ = os.Remove(p)
+				}
+				_ = os.Rename(tmp, p)
+				swaps.Add(1)
+			}
+		}()
+		const calls = 1500
+		outputs, errs := 0, 0
+		for i := 0; i < calls; i++ {
+			r := c19Call(via, p, 2*time.Second)
+			ctx.Eval(1)
+			if r.panicMsg != "" {
+				stop.Store(true)
+				wg.Wait()
+				ctx.Violation("panic:executable-being-replaced:via="+via, fmt.Sprintf("call %d of %d while the executable is being swapped by rename (script / self-symlink / dangling symlink / symlink / directory): %s", i, calls, r.panicMsg), nil)
+				return
+			}
+			if r.blocked {
+				stop.Store(true)
+				wg.Wait()
+				ctx.Violation("blocked-past-timeout:executable-being-replaced:via="+via, fmt.Sprintf("call %d had not returned after %.0f s", i, r.elapsed.Seconds()), nil)
+				return
+			}
+			if r.err != nil {
+				errs++
+			} else {
+				outputs++
+				if r.out != "42" {
+					stop.Store(true)
+					wg.Wait()
+					ctx.Violation("wrong-output:executable-being-replaced:via="+via, fmt.Sprintf("call %d returned %q without error; every variant that can run prints 42", i, trunc(r.out)), nil)
+					return
+				}
+			}
+		}
+		stop.Store(true)
+		wg.Wait()
+		ctx.Count("calls_while_the_executable_is_being_replaced", calls)
+		ctx.Count("swaps_of_the_executable_during_those_calls", swaps.Load())
+		if outputs > 0 && errs > 0 {
+			ctx.Nontrivial("executable-being-replaced|" + via)
+		}
+	}
+}
+
+// c19LongRunOfFailures: a command that keeps failing for a long time (a vendor tool while its device is suspended):
+// thousands of polls of the same sensor / fan object in a row. Every one of them comes back with an error, none panics,
+// and the first poll after the command works again delivers its reading or an error - it still returns.
+func c19LongRunOfFailures(ctx *Ctx, dir string) {
+	sdir := filepath.Join(dir, "longrun")
+	_ = os.MkdirAll(sdir, 0755)
+	script := filepath.Join(sdir, "tool.sh")
+	_ = os.WriteFile(script, []byte("#!/bin/sh\nif [ -e "+sdir+"/healthy ]; then echo 42000; else echo 'device suspended' >&2; exit 3; fi\n"), 0755)
+	const polls = 4500
+	sn, err := sensors.NewSensor(configuration.SensorConfig{ID: uniqueId("c19long"), Cmd: &configuration.CmdSensorConfig{Exec: script}})
+	if err != nil {
+		ctx.Inconclusive("long run of failures: " + err.Error())
+		return
+	}
+	fan, _ := fans.NewFan(configuration.FanConfig{ID: uniqueId("c19longfan"), Cmd: &configuration.CmdFanConfig{
+		SetPwm: &configuration.ExecConfig{Exec: script}, GetPwm: &configuration.ExecConfig{Exec: script}, GetRpm: &configuration.ExecConfig{Exec: script}}})
+	sn.SetMovingAvg(30000)
+	for _, who := range []string{"sensor-monitor-poll", "fan-rpm-query"} {
+		ctx.LogCase(map[string]interface{}{"class": "long-run-of-failures:process-died:" + who})
+		_ = os.Remove(filepath.Join(sdir, "healthy"))
+		n := polls
+		if who == "fan-rpm-query" {
+			n = polls / 3
+		}
+		for i := 0; i <= n; i++ {
+			if i == n {
+				_ = os.WriteFile(filepath.Join(sdir, "healthy"), []byte("1"), 0644)
+			}
+			var perr error
+			done := make(chan struct{})
+			var pmsg string
+			go func() {
+				defer close(done)
+				_, pmsg = Guard(func() {
+					if who == "sensor-monitor-poll" {
+						perr = internal.VerifUpdateSensor(sn)
+					} else {
+						_, perr = fan.GetRpm()
+					}
+				})
+			}()
+			select {
+			case <-done:
+			case <-time.After(12 * time.Second):
+				ctx.Violation("blocked-past-timeout:long-run-of-failures:"+who, fmt.Sprintf("poll %d of a command that exits 3 at once had not returned after 12 s", i), nil)
+				ctx.Abort = true
+				return
+			}
+			ctx.Eval(1)
+			if pmsg != "" {
+				ctx.Violation("panic:long-run-of-failures:"+who, fmt.Sprintf("poll %d of %d consecutive polls of a failing command (exit 3): %s", i, n, pmsg), nil)
+				return
+			}
+			if i < n && perr == nil && who == "fan-rpm-query" {
+				ctx.Violation("failure-not-reported:long-run-of-failures:"+who, fmt.Sprintf("poll %d", i), nil)
+				return
+			}
+		}
+		ctx.Count("consecutive_polls_of_a_failing_command", int64(n))
+		ctx.Nontrivial("long-run-of-failures|" + who)
 	}
 }
